@@ -17,7 +17,9 @@ StateChecks(r) ==
       recT == {<<r.edges[i].a, Abs(r.edges[i].to)>> : i \in DOMAIN r.edges}
       recI == RangeS(r.ignored)
       recA == {p[1] : p \in recT} \cup recI
-      free == {a \in en : MayIgnoreOrStep(sys, s, a)}
+      \* STRICT = "1" (C15): the reference is the UNWRAPPED real actor, which takes exactly the spec's choice, so the
+      \* adapters get no freedom
+      free == IF IOEnv.STRICT = "1" THEN {} ELSE {a \in en : MayIgnoreOrStep(sys, s, a)}
       strictOK ==
         \A a \in en \ free :
            IF IsIgnored(sys, s, a)
